@@ -1711,9 +1711,10 @@ Qed.
 
 Lemma pline_ok_bad_width n i w : wf_type T n = true -> plainc w = true -> pline_ok (PStmt [] (alias_head n ++ int_prefix i ++ w)) = true.
 Proof.
-  intros Hn Hw. cbn [pline_ok ws_only forallb andb]. unfold alias_head at 1. rewrite <- !app_assoc.
-  rewrite (head_stmt_kw _ _ (kwok_using T Hok)). rewrite !app_assoc, <- !app_assoc.
-  rewrite !plainc_app, (plainc_kw _ (kwok_using T Hok)), (plainc_type n Hn), plainc_int_prefix, Hw. reflexivity.
+  intros Hn Hw. cbn [pline_ok ws_only forallb andb].
+  assert (Hh : head_stmt (alias_head n ++ int_prefix i ++ w) = true).
+  { unfold alias_head. rewrite <- !app_assoc. apply head_stmt_kw. apply (kwok_using T Hok). }
+  rewrite Hh, !plainc_app, (plainc_alias_head n Hn), plainc_int_prefix, Hw. reflexivity.
 Qed.
 
 Lemma pline_ok_bad_case n rest : wf_type T n = true -> plainc rest = true ->
